@@ -181,7 +181,7 @@ def c08_product(p: int, l0: int, l1: int, l2: int, mp: int, ml: int, fp: int, fl
     l1 = pick(l1, 0, LMAX) if p >= 2 else 0
     l2 = pick(l2, 0, 4) if (p >= 3 and THOROUGH) else ((l0 + l1) % 4 if p >= 3 else 0)
     ml = pick(ml, 1, 3) if mp else 1
-    fl = pick(fl, 0, 4) if (fp and THOROUGH) else (l0 + 1) % 4
+    fl = (l0 + 1) % 4
     with concrete():
         ok = check(p, [l0, l1, l2], mp, [ml, 3 - ml], fp, [fl, 2], 0, 0, (p + l0 + mp) % 3)
     reached({"p": p, "lens": [l0, l1, l2], "mp": mp, "fp": fp} if (not ok or (p == 2 and l0 == 2 and l1 == 3)) else None)
